@@ -71,7 +71,10 @@ def main():
     args = ap.parse_args()
     patches = args.patches or sorted(
         glob.glob(os.path.join(VERIF, "mutants", "*", "*.patch")) +
-        glob.glob(os.path.join(VERIF, "seeded", "*", "patch.diff")))
+        [os.path.join(d, "patch_rebased.diff")
+         if os.path.exists(os.path.join(d, "patch_rebased.diff"))
+         else os.path.join(d, "patch.diff")
+         for d in glob.glob(os.path.join(VERIF, "seeded", "*"))])
     stable, allowed = baseline_allowed_failures()
     rc = 0
     for patch in patches:
